@@ -13,6 +13,7 @@ CFG = """CONSTANTS MaxF = %d
  MaxV = %d
  Rich = %s
  StSet = %s
+ ExtOn = %s
  Deviations = {%s}
 SPECIFICATION %s
 %s
@@ -28,6 +29,7 @@ TRACE_CFG = """CONSTANTS MaxF = 4
  MaxV = 4
  Rich = TRUE
  StSet = {"absent", "valid", "invalid"}
+ ExtOn = TRUE
  Deviations = {}
 INIT TraceInit
 NEXT TraceNext
@@ -38,8 +40,8 @@ CHECK_DEADLOCK FALSE
 ALL_ST = '{"absent", "valid", "invalid"}'
 
 
-def cfg(f, v, rich=False, dev="", spec="Spec", view="", prop="", st=ALL_ST):
-    return CFG % (f, v, "TRUE" if rich else "FALSE", st, dev, spec, view, prop)
+def cfg(f, v, rich=False, dev="", spec="Spec", view="", prop="", st=ALL_ST, ext=False):
+    return CFG % (f, v, "TRUE" if rich else "FALSE", st, "TRUE" if ext else "FALSE", dev, spec, view, prop)
 
 
 def parse_cases(prints: List[str]) -> List[dict]:
@@ -92,6 +94,10 @@ def random_case(rng: random.Random) -> dict:
             "split": rng.randint(0, len(vals) - 1) if rng.random() < 0.4 else 0, "wo": "",
             "depreq": len(fields) >= 2 and not fields[0]["req"] and not fields[1]["req"] and rng.random() < 0.4}
     case["generic"] = not case["split"] and rng.random() < 0.3
+    # validators not bound to the class, attached by argument / Annotated / enclosing field metadata
+    case["ext"] = [{"name": f"x{i + 1}", "deps": [], "fld": "", "disc": [], "style": rng.choice(["raise", "yield"]),
+                    "out": rng.choice(["pass", "fail"])} for i in range(rng.choice([0, 0, 1, 2]))]
+    case["extmode"] = rng.choice(["arg", "annotated", "field"]) if case["ext"] else "arg"
     # an InitVar dependency (declared parameter) -- kept out of field validators / yielded paths
     cand = [f["name"] for f in fields if not any(v["fld"] == f["name"] for v in vals)]
     if cand and rng.random() < 0.3:
@@ -123,6 +129,13 @@ def main() -> int:
     if r.violated:
         rep.violation(f"TLC: invariant {r.violated} violated (1 field, 3 validators)", {"trace": r.error_trace[:60]})
     replayed += replay_cases(rep, parse_cases(r.prints), "exhaustive (1 field, 3 validators)", distinct)
+    # validators not bound to the class (argument / Annotated / metadata of an enclosing field) after the class's own
+    r = tlc.run_tlc("MC_Validators", cfg(2, 1, ext=True), workers=16, env={"EMIT": "1"}, timeout_s=1800)
+    states += r.distinct
+    trans += r.states
+    if r.violated:
+        rep.violation(f"TLC: invariant {r.violated} violated (2 fields, 1 validator, unbound validators)", {"trace": r.error_trace[:60]})
+    replayed += replay_cases(rep, parse_cases(r.prints), "exhaustive (2 fields, 1 validator, <= 2 unbound validators)", distinct)
     if thorough:
         r = tlc.run_tlc("MC_Validators", cfg(3, 2), workers=16, env={"EMIT": "0"}, timeout_s=3000)
         states += r.distinct
@@ -145,8 +158,11 @@ def main() -> int:
     neg["aliasgate"] = r.violated
     r = tlc.run_tlc("MC_Validators", cfg(2, 2, dev='"depreqvalid"'), workers=8, env={"EMIT": "0"}, timeout_s=1800)
     neg["depreqvalid"] = r.violated
+    r = tlc.run_tlc("MC_Validators", cfg(1, 1, dev='"extdropped"', ext=True), workers=8, env={"EMIT": "0"}, timeout_s=1800)
+    neg["extdropped"] = r.violated
     rep.set("negative_checks", neg)
-    if neg["selfrerun"] != "Termination" or neg["aliasgate"] != "RunIff" or neg["depreqvalid"] != "RunIff":
+    if neg["selfrerun"] != "Termination" or neg["aliasgate"] != "RunIff" or neg["depreqvalid"] != "RunIff" \
+            or neg["extdropped"] != "RunIff":
         raise tlc.MachineryError(f"negative model checks no longer violate the invariants: {neg}")
     # 4. sampled rich cases (up to 4 fields / 4 validators, every option) by TLC simulation, replayed
     nsim = 6000 if thorough else 1200
@@ -154,7 +170,7 @@ def main() -> int:
     # two samples: every field valid (the validators' interplay: chains of failures and discards),
     # and mixed field statuses (gating)
     for label, st in (("all fields valid", '{"valid"}'), ("mixed statuses", ALL_ST)):
-        r = tlc.run_tlc("MC_Validators", cfg(4, 4, rich=True, st=st), workers=4, env={"EMIT": "1"},
+        r = tlc.run_tlc("MC_Validators", cfg(4, 4, rich=True, st=st, ext=True), workers=4, env={"EMIT": "1"},
                         simulate=f"num={nsim}", depth=24, seed=common.seed() + 1, timeout_s=1800)
         if r.violated:
             rep.violation(f"TLC (simulation): invariant {r.violated} violated", {"trace": r.error_trace[:60]})
@@ -170,7 +186,8 @@ def main() -> int:
         case = random_case(rng)
         out = valcase.run_case(case)
         distinct.add(valcase.shape_key(case))
-        execs.append({"id": i + 1, "case": {"fields": case["fields"], "vals": case["vals"], "depreq": bool(case.get("depreq"))},
+        execs.append({"id": i + 1, "case": {"fields": case["fields"], "vals": case["vals"], "depreq": bool(case.get("depreq")),
+                               "ext": case["ext"], "extmode": case["extmode"]},
                       "kind": out["kind"], "ran": out["ran"], "errs": out["errs"], "constructed": out["constructed"],
                       "_full": case})
     wd = tlc.scratch_dir("verifval_")
